@@ -90,10 +90,20 @@ RecProgs(k) ==
                  Let("w", Call("wrap", <<IntL(k)>>)), Let("r", Call("rows", <<IntL(k), IntL(9)>>)),
                  Text(<<"[">>), Emit(Call("len", <<Id("w")>>)), Text(<<",">>), Emit(For("", "v", Call("wrap", <<IntL(k)>>), <<Text(<<"(">>), Emit(Id("v")), Text(<<")">>)>>)), Text(<<",">>),
                  Emit(Call("len", <<Id("r")>>)), Text(<<",">>), Emit(Call("len", <<Idx(Id("r"), IntL(1))>>)), Text(<<",">>), Emit(Idx(Idx(Id("r"), IntL(1)), IntL(0))), Text(<<"]">>)>>,
+    \* a reached `return nil`: the call's value IS nil (tested, compared, passed on, bound)
+    retnil |-> <<Let("find", FnLit(<<"m">>, <<Code(If(Bin("==", Id("m"), IntL(1)), <<Ret(Str(<<"o", "n", "e">>))>>)), Ret(Id("nil"))>>)),
+                 Let("desc", FnLit(<<"v">>, <<Code(If(Id("v"), <<Ret(Str(<<"s">>))>>)), Ret(Str(<<"n">>))>>)),
+                 Text(<<"[">>), Emit(IfElse(Call("find", <<IntL(k)>>), <<Text(<<"T">>)>>, <<Text(<<"F">>)>>)), Text(<<",">>),
+                 Emit(Bin("==", Call("find", <<IntL(k)>>), Id("nil"))), Text(<<",">>), Emit(Call("desc", <<Call("find", <<IntL(k)>>)>>)), Text(<<",">>),
+                 Let("r", Call("find", <<IntL(k)>>)), Emit(IfElse(Id("r"), <<Text(<<"T">>)>>, <<Text(<<"F">>)>>)), Text(<<",">>), Emit(Call("find", <<IntL(k)>>)), Text(<<"]">>)>>,
+    \* a function WITHOUT parameters: its body still runs in a scope of its own (its lets are gone afterwards, the caller's
+    \* variable of the same name is untouched, a second call starts afresh)
+    zeroparam |-> <<Let("n", IntL(k)), Let("nx", FnLit(<<>>, <<Code(If(Id("q"), <<Ret(Str(<<"a", "g", "a", "i", "n">>))>>)), Let("n", IntL(50)), Let("q", IntL(7)), Ret(Bin("+", Id("n"), IntL(1)))>>)),
+                    Text(<<"[">>), Emit(Call("nx", <<>>)), Text(<<"|">>), Emit(Id("n")), Text(<<"|">>), Emit(IfElse(Id("q"), <<Text(<<"L">>)>>, <<Text(<<"-">>)>>)), Text(<<"|">>), Emit(Call("nx", <<>>)), Text(<<"]">>)>>,
     \* the name at a call site is bound to another function between two executions of that call (loop variable)
     rebind |-> <<Let("inc", FnLit(<<"m">>, <<Ret(Bin("+", Id("m"), IntL(1)))>>)), Let("dbl", FnLit(<<"m">>, <<Ret(Bin("*", Id("m"), IntL(2)))>>)),
                 Text(<<"[">>), Emit(For("", "w", Arr(<<Id("inc"), Id("dbl"), Id("inc")>>), <<Emit(Call("w", <<IntL(k)>>)), Text(<<";">>)>>)), Text(<<"]">>)>> ]
-RecNames == {"sum", "down", "fib", "after", "twice", "apply", "compose", "rebind", "nestarg", "retarr", "siblings", "manycalls"}
+RecNames == {"sum", "down", "fib", "after", "twice", "apply", "compose", "rebind", "nestarg", "retarr", "siblings", "manycalls", "retnil", "zeroparam"}
 RECURSIVE Fib(_)
 Fib(k) == IF k < 2 THEN k ELSE Fib(k - 1) + Fib(k - 2)
 RECURSIVE Rep(_, _)
@@ -110,6 +120,9 @@ RecText(nm, k) ==
     [] nm = "siblings" -> <<"[">> \o IntChars(2 * k) \o <<"|">> \o IntChars(k + 1) \o <<"|">> \o IntChars(2 * k) \o <<"]">>
     [] nm = "manycalls" -> <<"[">> \o Rep("1", IF k = 5 THEN 1200 ELSE k + 1) \o <<"]">>
     [] nm = "retarr" -> <<"[", "1", ",", "(">> \o IntChars(k) \o <<")", ",", "2", ",", "1", ",", "9", "]">>
+    [] nm = "retnil" -> IF k = 1 THEN <<"[", "T", ",", "f", "a", "l", "s", "e", ",", "s", ",", "T", ",", "o", "n", "e", "]">>
+                        ELSE <<"[", "F", ",", "t", "r", "u", "e", ",", "n", ",", "F", ",", "]">>
+    [] nm = "zeroparam" -> <<"[", "5", "1", "|">> \o IntChars(k) \o <<"|", "-", "|", "5", "1", "]">>
     [] nm = "rebind" -> <<"[">> \o IntChars(k + 1) \o <<";">> \o IntChars(2 * k) \o <<";">> \o IntChars(k + 1) \o <<";", "]">>
 
 VARIABLES n, links, dflt, args, use, res
